@@ -52,9 +52,11 @@ class Evaluators(Unit):
         "C16.eval.single_reference_exact": {"props": ["C16"], "text":
             "a value referenced by a single YAQL or Jinja expression in each documented form (ctx().x, ctx(x), ctx('x'), nested in a container) is returned exactly, in type and value"},
         "C16.eval.pure": {"props": ["C16", "C19"], "text":
-            "evaluating a reading expression never modifies the context it is evaluated against"},
+            "evaluating an expression never modifies the context it is evaluated against - a reading expression in any reference form, and also an expression that calls a mutating method (pop, append, update, setdefault, sort) on a value of the context: it may evaluate or be refused, the context stays as it was"},
         "C16.deepcopy.exact": {"props": ["C16", "C05"], "text":
             "json_util.deepcopy returns an equal value of the same types that shares no container with its argument"},
+        "C11.eval.no_undefined_in_values": {"props": ["C11", "C16"], "text":
+            "a lookup that fails inside a list or dict result (a missing attribute under map(), a missing key in a dict literal) is an evaluation error in both languages: evaluate() returns a JSON value at every depth or raises, it never returns a container holding a placeholder for an undefined value"},
         "C11.eval.wrapped": {"props": ["C11", "C15"], "text":
             "every way evaluation can fail inside an expression (undefined variable, missing key, wrong type, unknown function, empty selection, index out of range, division by zero) surfaces as an ExpressionEvaluationException of the language, never as another exception type"},
     }
@@ -99,6 +101,20 @@ class Evaluators(Unit):
                             ctx.oblige("C16.eval.single_reference_exact", ok, None,
                                        {"value": repr(v), "form": f, "wrap": wrap, "got": repr(r)[:120]})
                             ctx.oblige("C16.eval.pure", typed_eq(data, before), None, {"value": repr(v), "form": f})
+                # expressions that try to change what they read: whatever they evaluate to (a value or an
+                # evaluation error), the context is left as it was
+                for stmt in ("{{ ctx().q.pop(0) }}", "{{ ctx().q.append(9) }}", "{{ ctx().d.update({'k': 1}) }}",
+                             "{{ ctx().d.pop('a', 0) }}", "{{ ctx().d.setdefault('z', []) }}", "{{ ctx().q.sort() }}",
+                             "<% ctx().q.skip(1) %>", "<% ctx().d.set(k, 1) %>", "<% ctx().d.delete(a) %>", "<% ctx().q + [9] %>"):
+                    data = {"q": ["a", "b", "c"], "d": {"a": 1}}
+                    before = copy.deepcopy(data)
+                    try:
+                        r = repr(expr_base.evaluate(stmt, data))
+                    except exc.ExpressionEvaluationException as ex:
+                        r = type(ex).__name__
+                    except Exception as ex:
+                        r = "%s: %s" % (type(ex).__name__, ex)
+                    ctx.oblige("C16.eval.pure", typed_eq(data, before), None, {"form": stmt, "got": r[:120], "context_after": repr(data)})
             else:
                 data = {"d": {"a": 1}, "l": [], "s": "str", "n": 0, "one": 1}
                 failing = [
@@ -122,6 +138,20 @@ class Evaluators(Unit):
                     except Exception as ex:
                         ok, got = False, "%s: %s" % (type(ex).__name__, ex)
                     ctx.oblige("C11.eval.wrapped", ok, None, {"expression": stmt, "got": got})
+                # a failed lookup inside a list or dict result is a failure too: what evaluate() returns is
+                # a JSON value at every depth, never a placeholder for an undefined value
+                data2 = {"servers": [{"ip": "10.0.0.1"}, {"name": "no-ip"}], "d": {"a": 1}}
+                for stmt in ('{{ ctx("servers") | map(attribute="ip") | list }}', '{{ {"a": ctx("d").a, "b": ctx("d").missing} }}',
+                             '{{ [ctx("d").missing] }}', "<% ctx(servers).select($.ip) %>", "<% dict(a => ctx(d).a, b => ctx(d).missing) %>"):
+                    try:
+                        r = expr_base.evaluate(stmt, copy.deepcopy(data2))
+                        json.dumps(r)
+                        ok, got = True, "value:%r" % (r,)
+                    except exc.ExpressionEvaluationException as ex:
+                        ok, got = True, type(ex).__name__
+                    except Exception as ex:
+                        ok, got = False, "%s: %s" % (type(ex).__name__, str(ex)[:80])
+                    ctx.oblige("C11.eval.no_undefined_in_values", ok, None, {"expression": stmt, "got": got[:160]})
             ctx.canary()
 
         ctx.eng.explore(thunk)
@@ -150,6 +180,7 @@ def render_param(k, v):
 
 
 PARAM_VALUES = [0, 7, -3, 1.5, -0.25, True, False, None, "abc", "with space", "a=b", "x, y", "it's", 'say "hi"',
+                "'ok'", "the bosses'", "echo 'hello world'", '"quoted"', "'",
                 "UPPER lower", "true", "123", {"a": 1}, {"Name": "Bob", "Tags": ["X", "y"]}, {"nested": {"K": "V"}},
                 "<% ctx().x %>", "{{ ctx().x }}", "<% ctx(a) = 1 %>"]
 
@@ -469,10 +500,13 @@ class WorkflowRendering(Unit):
     name = "X.workflow_rendering"
     functions = ["orquesta.specs.native.v1.models.WorkflowSpec.render_input",
                  "orquesta.specs.native.v1.models.WorkflowSpec.render_vars",
-                 "orquesta.specs.native.v1.models.WorkflowSpec.render_output"]
+                 "orquesta.specs.native.v1.models.WorkflowSpec.render_output",
+                 "orquesta.specs.native.v1.models.TaskSpec.finalize_context"]
     obligations = {
         "C16.render_input.exact": {"props": ["C16", "C11"], "text":
             "a runtime input is passed through exactly (type and value) whether or not the definition declares a default for it - in particular a falsy value (false, 0, '', [], {}, null) is not replaced by the default; a missing input gets the default; rendering errors are returned, not raised"},
+        "C11.render.any_error_returned": {"props": ["C11"], "text":
+            "whatever exception the evaluation of an input default, a var, an output entry or a publish raises - an evaluation exception of the language or anything else (an unhashable dict key, a template error in the text a raw block leaves behind) - it is returned in the error list and never raised out of render_input / render_vars / render_output / finalize_context"},
         "C16.render_vars_output.exact": {"props": ["C16", "C11", "C06"], "text":
             "vars and output entries are rendered in order against a rolling context, values type-exact, errors collected and returned"},
     }
@@ -503,6 +537,26 @@ class WorkflowRendering(Unit):
             except Exception as ex:
                 ok = False
             ctx.oblige("C16.render_input.exact", ok, None, {"case": "default expression fails: error returned"})
+            # an evaluation that fails with something else than an evaluation exception of the language
+            # (an unhashable dict key, a template error in what a raw block leaves behind) is returned as
+            # an error too, from every rendering position of the definition
+            odd = [{"<% ctx().k %>": 1}, "{% raw %}{{ x }}{% endraw %} {{ ctx().t }}"]
+            data = {"k": ["a", "b"], "t": "50{% off"}
+            for bad in odd:
+                d = {"version": 1.0, "input": [{"p": bad}], "vars": [{"v": bad}], "output": [{"o": bad}],
+                     "tasks": {"t1": {"action": "core.noop", "next": [{"publish": [{"x": bad}], "do": "t2"}]}, "t2": {"action": "core.noop"}}}
+                spec = native_specs.WorkflowSpec(d)
+                for pos, call in (("input", lambda: spec.render_input({}, dict(data))), ("vars", lambda: spec.render_vars(dict(data))),
+                                  ("output", lambda: spec.render_output(dict(data))),
+                                  ("publish", lambda: spec.tasks.get_task("t1").finalize_context(
+                                      "t2", ("t1", "t2", 0, {"ref": 0, "criteria": []}), dict(data))[1:])):
+                    try:
+                        r = call()
+                        errs = r[-1]
+                        ok, got = len(errs) == 1, [type(x).__name__ for x in errs]
+                    except Exception as ex:
+                        ok, got = False, "escaped: %s: %s" % (type(ex).__name__, ex)
+                    ctx.oblige("C11.render.any_error_returned", ok, None, {"position": pos, "value": repr(bad), "got": repr(got)[:160]})
             for v in FALSY_AND_OTHERS:
                 d = {"version": 1.0, "vars": [{"a": "<% ctx().src %>"}, {"b": "<% ctx().a %>"}],
                      "output": [{"o1": "<% ctx().src %>"}, {"o2": "<% ctx().o1 %>"}, {"bad": "<% ctx().nope %>"}],
